@@ -34,5 +34,10 @@ pub mod encoding {
     //@ include u1_encoding.tpl
 }
 
+//@ tag canary
+/// vacuity guard: this obligation must FAIL on every run; if it verifies the pipeline is broken
+pub proof fn zx_canary() ensures false {}
+//@ untag
+
 } // verus!
 fn main() {}
